@@ -94,6 +94,10 @@ trait Obj {
     fn add_bytes(&mut self, _b: &[u8]) -> bool {
         false
     }
+    /// witness-set lists: hand the list over again with this element coming out of the element decoder
+    fn add_decoded(&mut self, _id: u8) -> bool {
+        false
+    }
     fn bytes(&self) -> Vec<u8>;
     fn json(&self) -> Result<String, String>;
     fn boxed_clone(&self) -> Box<dyn Obj>;
@@ -225,6 +229,8 @@ coll_obj!(OBoots, csl::BootstrapWitnesses, csl::BootstrapWitness, e_bootwit);
 struct OWs {
     kind: CollKind,
     ids: Vec<u8>,
+    /// positions (into `ids`) whose element arrives through the element decoder instead of the constructors
+    decoded: Vec<usize>,
     ws: csl::TransactionWitnessSet,
 }
 impl OWs {
@@ -232,8 +238,10 @@ impl OWs {
         match self.kind {
             CollKind::WsNativeScripts => {
                 let mut l = csl::NativeScripts::new();
-                for i in &self.ids {
-                    l.add(&e_native(*i));
+                for (pos, i) in self.ids.iter().enumerate() {
+                    let plain = e_native(*i);
+                    let via_decoder = if self.decoded.contains(&pos) { tag_nested_script_lists(&plain.to_bytes()).and_then(|b| csl::NativeScript::from_bytes(b).ok()) } else { None };
+                    l.add(&via_decoder.unwrap_or(plain));
                 }
                 self.ws.set_native_scripts(&l);
             }
@@ -266,7 +274,16 @@ impl Obj for OWs {
         self.ws.to_json().map_err(|e| format!("{:?}", e))
     }
     fn boxed_clone(&self) -> Box<dyn Obj> {
-        Box::new(OWs { kind: self.kind, ids: self.ids.clone(), ws: self.ws.clone() })
+        Box::new(OWs { kind: self.kind, ids: self.ids.clone(), decoded: self.decoded.clone(), ws: self.ws.clone() })
+    }
+    fn add_decoded(&mut self, id: u8) -> bool {
+        if self.kind != CollKind::WsNativeScripts {
+            return false;
+        }
+        self.decoded.push(self.ids.len());
+        self.ids.push(id);
+        self.sync();
+        true
     }
 }
 
@@ -302,7 +319,7 @@ fn new_obj(kind: CollKind) -> Box<dyn Obj> {
         CollKind::VotingProposals => Box::new(OProps(csl::VotingProposals::new())),
         CollKind::Vkeywitnesses => Box::new(OVkeys(csl::Vkeywitnesses::new())),
         CollKind::BootstrapWitnesses => Box::new(OBoots(csl::BootstrapWitnesses::new())),
-        k => Box::new(OWs { kind: k, ids: vec![], ws: csl::TransactionWitnessSet::new() }),
+        k => Box::new(OWs { kind: k, ids: vec![], decoded: vec![], ws: csl::TransactionWitnessSet::new() }),
     }
 }
 
@@ -316,7 +333,7 @@ fn from_bytes(kind: CollKind, b: &[u8]) -> Result<Box<dyn Obj>, String> {
         CollKind::VotingProposals => Box::new(OProps(csl::VotingProposals::from_bytes(b.to_vec()).map_err(e)?)),
         CollKind::Vkeywitnesses => Box::new(OVkeys(csl::Vkeywitnesses::from_bytes(b.to_vec()).map_err(e)?)),
         CollKind::BootstrapWitnesses => Box::new(OBoots(csl::BootstrapWitnesses::from_bytes(b.to_vec()).map_err(e)?)),
-        k => Box::new(OWs { kind: k, ids: vec![], ws: csl::TransactionWitnessSet::from_bytes(b.to_vec()).map_err(e)? }),
+        k => Box::new(OWs { kind: k, ids: vec![], decoded: vec![], ws: csl::TransactionWitnessSet::from_bytes(b.to_vec()).map_err(e)? }),
     })
 }
 
@@ -330,7 +347,7 @@ fn from_json(kind: CollKind, j: &str) -> Result<Box<dyn Obj>, String> {
         CollKind::VotingProposals => Box::new(OProps(csl::VotingProposals::from_json(j).map_err(e)?)),
         CollKind::Vkeywitnesses => Box::new(OVkeys(csl::Vkeywitnesses::from_json(j).map_err(e)?)),
         CollKind::BootstrapWitnesses => Box::new(OBoots(csl::BootstrapWitnesses::from_json(j).map_err(e)?)),
-        k => Box::new(OWs { kind: k, ids: vec![], ws: csl::TransactionWitnessSet::from_json(j).map_err(e)? }),
+        k => Box::new(OWs { kind: k, ids: vec![], decoded: vec![], ws: csl::TransactionWitnessSet::from_json(j).map_err(e)? }),
     })
 }
 
@@ -444,10 +461,19 @@ pub fn run_coll(c: &CollCase) -> Outcome {
             CollOp::AddAlt(id, alt) => {
                 let id = *id % UNIVERSE;
                 let eb = alt_bytes(&universe[id as usize].1, *alt, 0);
-                if is_ws || !obj.add_bytes(&eb) {
-                    if !is_ws {
-                        out.count("c16.decoder_rejected_encoding", 1);
+                if is_ws {
+                    if obj.add_decoded(id) {
+                        out.count("fault.F8_element_in_other_encoding", 1);
+                        if !model.contains(&id) {
+                            model.push(id);
+                        } else {
+                            out.count("fault.F6_duplicate_add", 1);
+                        }
+                    } else {
+                        applied = false;
                     }
+                } else if !obj.add_bytes(&eb) {
+                    out.count("c16.decoder_rejected_encoding", 1);
                     applied = false;
                 } else {
                     out.count("fault.F8_element_in_other_encoding", (eb != universe[id as usize].1) as u64);
@@ -499,7 +525,7 @@ pub fn run_coll(c: &CollCase) -> Outcome {
                     }
                 };
                 if ok && !ids.is_empty() {
-                    obj = Box::new(OWs { kind, ids: dedup(&ids), ws });
+                    obj = Box::new(OWs { kind, ids: dedup(&ids), decoded: vec![], ws });
                     model = dedup(&ids);
                 } else {
                     if !ok {
@@ -596,7 +622,7 @@ pub fn run_coll(c: &CollCase) -> Outcome {
                         }
                         if is_ws {
                             // a restarted witness set is a new object; later Adds go through a fresh list
-                            let ows = OWs { kind, ids: model.clone(), ws: csl::TransactionWitnessSet::from_bytes(b2.clone()).unwrap() };
+                            let ows = OWs { kind, ids: model.clone(), decoded: vec![], ws: csl::TransactionWitnessSet::from_bytes(b2.clone()).unwrap() };
                             obj = Box::new(ows);
                         } else {
                             obj = o;
